@@ -73,6 +73,12 @@ func (p Params) Validate() error {
 	if err := validateUint64("max report data size", true)(p.MaxReportDataSize); err != nil {
 		return err
 	}
+	if p.MaxCalldataSize > MaxDataSize || p.MaxReportDataSize > MaxDataSize {
+		return fmt.Errorf(
+			"max calldata size and max report data size must not exceed %d: %d, %d",
+			MaxDataSize, p.MaxCalldataSize, p.MaxReportDataSize,
+		)
+	}
 	if err := validateUint64("expiration block count", true)(p.ExpirationBlockCount); err != nil {
 		return err
 	}
